@@ -52,6 +52,59 @@ func init() {
 			return sub, done
 		})
 		runErrFaults(r, n/2)
+		runMountRenameErrs(r, n/4+10)
+	}
+}
+
+// runMountRenameErrs: Rename through a mount FS -- within the root, within one mount, across two mounts, and between two
+// mount points that are backed by the SAME file system value: whenever it fails, the error is a *LinkError whose two
+// names are the caller's names, whichever constituent produced it.
+func runMountRenameErrs(r *Rng, n int) {
+	cands := candidatePaths(nsNames, 2)
+	cands = append(cands, "c", "c/a", "c/b", "c/ab/a", "c/nodir/a", "a/nodir/b", "ab/b/a", "ab/b/nodir/a", "nodir/a")
+	for k := 0; k < n; k++ {
+		root, m1, m2 := newMem(), newMem(), newMem()
+		_ = hackpadfs.Mkdir(root, "a", 0o755)
+		_ = hackpadfs.Mkdir(root, "c", 0o755)
+		_ = hackpadfs.MkdirAll(root, "ab/b", 0o755)
+		_ = hackpadfs.WriteFullFile(root, "b", []byte{1}, 0o644)
+		_ = hackpadfs.WriteFullFile(m1, "a", []byte{2}, 0o644)
+		_ = hackpadfs.Mkdir(m1, "ab", 0o755)
+		_ = hackpadfs.WriteFullFile(m2, "a", []byte{3}, 0o644)
+		m, _ := mount.NewFS(root)
+		c := &Case{ID: c05NextID, Kind: "mountrename", Trivial: true}
+		c05NextID++
+		c.Cells = []string{"mountrename"}
+		setup := ""
+		for _, mp := range []struct {
+			p  string
+			fs hackpadfs.FS
+		}{{"a", m1}, {"ab/b", m2}, {"c", m1}} {
+			if err := m.AddMount(mp.p, mp.fs); err != nil {
+				setup = fmt.Sprintf("AddMount(%q): %v", mp.p, err)
+			}
+		}
+		if setup != "" {
+			c.fail("mountrename: "+setup, "mountrename:setup")
+			emit(c)
+			continue
+		}
+		for i := 0; i < 6; i++ {
+			o, nw := cands[r.Intn(len(cands))], cands[r.Intn(len(cands))]
+			err := hackpadfs.Rename(m, o, nw)
+			c.Text = append(c.Text, fmt.Sprintf("rename %q %q -> %v", o, nw, err))
+			if err == nil {
+				continue
+			}
+			ce := canonErr(err)
+			switch {
+			case ce.Kind != "L":
+				c.fail(fmt.Sprintf("mountrename (a and c are the same file system mounted twice, ab/b another): Rename(%q, %q) failed with %s, not a *LinkError", o, nw, ce), "mountrename:type:"+ce.Kind)
+			case ce.Old != o || ce.New != nw:
+				c.fail(fmt.Sprintf("mountrename (a and c are the same file system mounted twice, ab/b another): Rename(%q, %q) failed with %s: the names are not the caller's", o, nw, ce), "mountrename:path:differs")
+			}
+		}
+		emit(c)
 	}
 }
 
